@@ -30,7 +30,9 @@ def cfg_for(states, with_lost_persistent, extra=None):
     peers.append({"name": "newcomer.example.org"})      # index len(states): a configured peer that connects during the shutdown
     if with_lost_persistent:
         peers.append({"name": "lost.example.org", "ips": ["10.1.0.99"], "persistent": True, "reconnect_wait": 4, "always_reconnect": True})
-    return {"node": {"ips": ["10.0.0.1"] if extra != "multi_listen" else ["10.0.0.1", "10.0.0.2", "10.0.0.3", "10.0.0.4"], "tcp_port": 3868, "cer_timeout": 600, "cea_timeout": 600, "idle_timeout": 600, "dwa_timeout": 600, "wakeup": 1},
+    return {"node": {"ips": ["10.0.0.1"] if extra != "multi_listen" else ["10.0.0.1", "10.0.0.2", "10.0.0.3", "10.0.0.4"], "tcp_port": 3868, "cer_timeout": 600, "cea_timeout": 600, "idle_timeout": 600, "dwa_timeout": 600, "wakeup": 1,
+                     # "sctp": the node listens on SCTP (one socket bound to its addresses with bindx) and its peers are SCTP peers
+                     **({"transport": "sctp"} if extra == "sctp" else {})},
             "peers": peers,
             # (the schedule exploration of a reconnect due at stop() uses a plain application: worker threads that all wake up at once
             # multiply the orders to explore without touching the dial path)
@@ -337,6 +339,14 @@ def all_cases(tier):
     for states in ((), ("ready",), ("await_cer", "ready")):
         for force in (False, True):
             cases.append((states, "dpa_now" if states and not force else "never", force, 2, None if not states else 0, False, "multi_listen"))
+    # the same shutdown over SCTP (listener, accepted and dialled sockets of the node's SCTP branches)
+    for states in ((), ("ready",), ("await_cer", "ready"), ("connecting",), ("await_cea", "ready"), ("ready", "waiting_dwa"), ("disconnecting", "ready")):
+        for force in (False, True):
+            has_ready = any(s_ in ("ready", "waiting_dwa") for s_ in states)
+            for reaction in (("dpa_now", "never", "close") if has_ready and not force else ("never",)):
+                for newcomer_at in (None, 0):
+                    cases.append((states, reaction, force, 2, newcomer_at, False, "sctp"))
+        cases.append((states, "never", False, 2, None, True, "sctp"))
     for ex in ("together", "together_iolast"):
         cases.append((("ready", "ready"), "dpa_now", False, 5, None, False, ex))
         cases.append((("waiting_dwa", "ready"), "dpa_now", False, 5, None, False, ex))
